@@ -29,8 +29,11 @@ Cand == << <<2>>,          \* /slide21.xml               root level
            <<1, 12>> >>    \* /slide/r.BIN               upper-case extension sharing "bin"
 CT_SLIDE == "application/vnd.openxmlformats-officedocument.presentationml.slide+xml"
 CT_UNK   == "application/x-unknown-thing"
+\* content types select the PART CLASS the loader builds (pptx/__init__.py registers them): slide parts (XML), plain parts, and - for
+\* the .bin names - an image type: image parts compare and hash by their own rules, and several parts may hold the same bytes
+CT_IMG   == "image/png"
 TypesFor(c) == CASE c \in {1, 2, 5} -> <<CT_SLIDE, CT_XML>>
-                 [] c \in {3, 4, 7} -> <<CT_PRN_P, CT_PRN_S, CT_UNK>>
+                 [] c \in {3, 4, 7} -> <<CT_PRN_P, CT_PRN_S, CT_IMG>>
                  [] OTHER           -> <<CT_UNK>>
 \* payload tokens: X/Y canonical classes of two different slide documents (several spellings each,
 \* chosen by the driver), B0 empty bytes, B1/B2 binary strings
